@@ -269,6 +269,8 @@ type fixture struct {
 	enc      sync.Map                     // string(block id) -> encoded block, registered BEFORE AddBlock
 	recent   [64]atomic.Pointer[recentID] // id last committed at height h, slot h%64
 	tip      atomic.Uint32                // height last published by the writer (approximate for readers)
+	maxDepth uint32                       // the writer never goes more than this below the highest height reached (0 = 10)
+	maxRun   int                          // longest run of consecutive removals/additions (0 = 5)
 }
 
 func mkBlock(r *hx.Rng, height uint32, prev []byte, ntx int) *blockchain.Block {
@@ -346,8 +348,15 @@ func (f *fixture) churn(c *ctl, slot int, r *hx.Rng, minH uint32, ntx int) {
 	own := append([]*blockchain.Block{}, f.blocks...) // index = height
 	cur := uint32(len(own) - 1)
 	maxEver := cur
+	depth, run := uint32(10), 5
+	if f.maxDepth > 0 {
+		depth = f.maxDepth
+	}
+	if f.maxRun > 0 {
+		run = f.maxRun
+	}
 	for !c.stopped() {
-		for a := 1 + r.Intn(5); a > 0 && !c.stopped(); a-- {
+		for a := 1 + r.Intn(run); a > 0 && !c.stopped(); a-- {
 			b := mkBlock(r, cur+1, own[cur].Header.ID, ntx)
 			f.register(b, ntx)
 			if err := f.chain.AddBlock(f.database.NewBatch(), b, []*blockchain.Event{}, 0, false); err != nil {
@@ -362,8 +371,8 @@ func (f *fixture) churn(c *ctl, slot int, r *hx.Rng, minH uint32, ntx int) {
 			}
 			c.tick(slot)
 		}
-		for d := 1 + r.Intn(5); d > 0 && !c.stopped(); d-- {
-			if cur <= minH || cur+10 <= maxEver {
+		for d := 1 + r.Intn(run); d > 0 && !c.stopped(); d-- {
+			if cur <= minH || cur+depth <= maxEver {
 				break
 			}
 			if err := f.chain.RemoveBlock(f.database.NewBatch(), false); err != nil {
